@@ -418,6 +418,7 @@ class Level:
         self.next = first
         self.txn = None          # (x, tid, {oid: data})
         self.packed = 0
+        self.undo_tids = []
         self.can_undo = kind in ('file', 'blob')
 
 
@@ -574,12 +575,16 @@ class World:
                 else:
                     return 'err:Undo'
             lv.txn[2].update(new)
+            lv.undo_tids.append(lv.txn[1])
             return 'ok'
         if c == 'pack':
             if lv.txn is not None:
                 return None
-            lv.packed = max(lv.packed, int(t[1]))
-            return 'ok'
+            # a pack may refuse to run (it must then change nothing: the reads that follow are judged
+            # against the unpacked history); its return value is not the property's business
+            if real is None or real.startswith('ok'):
+                lv.packed = max(lv.packed, int(t[1]))
+            return None
         if c == 'newoid':
             return ('newoid', lv)
         # ---- queries
@@ -758,6 +763,11 @@ class Gen:
                 mine = [(t, d) for t, d in w.revs(o) if t < u and t >= (w.H[lv.mark][0] if lv.mark < len(w.H) else 0)]
                 if not mine and self.below(o):
                     safe = False
+                # FileStorage quirk outside this property (reported for C04): undoing back to an
+                # un-creation writes a back pointer to the un-creation record; getTid then answers the
+                # new tid although load raises POSKeyError
+                if mine and mine[-1][1] is None:
+                    safe = False
             if safe:
                 exp = self.emit('undo %d %d' % (x, u))
                 if exp != 'ok':
@@ -869,7 +879,11 @@ class Gen:
         if lv.temp or lv.txn is not None:
             return
         mine = [t for t, _ in w.H[lv.mark:]]
-        cands = [t - t % UNIT + UNIT // 2 for t in mine if t - t % UNIT + UNIT // 2 > lv.packed]
+        # FileStorage.pack(gc=False) raises PackError when an undo record after the pack time points back to
+        # a record that is not current at the pack time (reported; not C16's business): pack only at times
+        # after every undo of this layer
+        floor = max([lv.packed] + lv.undo_tids)
+        cands = [t - t % UNIT + UNIT // 2 for t in mine if t - t % UNIT + UNIT // 2 > floor]
         if cands:
             self.emit('pack %d' % rng.choice(cands))
 
@@ -1041,12 +1055,36 @@ def run_case(ck, ops, model_out, tag):
     return real, present, i, bad, w
 
 
+def blocks(ops):
+    """two-phase-commit groups (begin .. finish/abort) stay together, so that shrinking never produces a
+    finish without vote or a begin that would block"""
+    out, cur = [], None
+    for op in ops:
+        c = op.split()[0]
+        if cur is not None:
+            cur.append(op)
+            if c in ('finish', 'abort'):
+                out.append(cur)
+                cur = None
+        elif c == 'begin':
+            cur = [op]
+        else:
+            out.append([op])
+    if cur:
+        out.append(cur)
+    return out
+
+
 def shrink(ck, ops, sig):
+    def flat(bs):
+        return [op for b in bs for op in b]
+
     def fails(sub):
+        sub = flat(sub)
         real, present = run_real(sub, ck.tmp)
         i, bad, _ = run_oracle(sub, real, present)
         return i is not None and signature(sub, i, real) == sig
-    keep = ddmin(ops, fails, max_tests=250)
+    keep = flat(ddmin(blocks(ops), fails, max_tests=250))
     real, present = run_real(keep, ck.tmp)
     i, bad, _ = run_oracle(keep, real, present)
     if i is None:
